@@ -489,3 +489,40 @@ def replay_h_cand(detail):
 
 
 KINDS['h_cand'] = replay_h_cand
+
+
+def replay_h_prof(detail):
+    """real pandas column with n rows, m missing values and u distinct values (a missing value
+    counting as one) through the real profile_table_for_join."""
+    repo.load()
+    import pandas as pd
+    n, u, m = detail['n'], detail['u'], detail['m']
+    distinct_present = u - (1 if m > 0 else 0)
+    present = n - m
+    vals = ['v%07d' % (i if i < distinct_present else 0) for i in range(present)]
+    col = pd.Series(vals + [None] * m, dtype=object)
+    df = pd.DataFrame({'a': col})
+    out = repo.mod('').profile_table_for_join(df)
+    row = out.loc['a']
+    comment = row['Comments']
+    lines = ['table: %d rows, %d distinct values (missing counted once), %d missing' % (n, u, m),
+             'profile: Unique values=%r Missing values=%r Comments=%r' % (row['Unique values'], row['Missing values'], comment)]
+    bad = False
+    want_key = (u == n and m == 0)
+    if (comment == 'This attribute can be used as a key attribute.') != want_key:
+        lines.append('key recommendation is %r, should be %r' % (not want_key, want_key))
+        bad = True
+    if not want_key and (comment.startswith('Joining on this attribute will ignore')) != (m >= 1):
+        lines.append('ignored-rows warning is %r, should be %r' % (comment.startswith('Joining'), m >= 1))
+        bad = True
+    exp_u = '%d (%s%%)' % (u, round(float(u) / float(n) * 100, 2))
+    exp_m = '%d (%s%%)' % (m, round(float(m) / float(n) * 100, 2))
+    if row['Unique values'] != exp_u or row['Missing values'] != exp_m:
+        lines.append('statistics differ from %r / %r' % (exp_u, exp_m))
+        bad = True
+    if list(out.index) != ['a'] or list(out.columns) != ['Unique values', 'Missing values', 'Comments']:
+        bad = True
+    return bad, '\n'.join(lines)
+
+
+KINDS['h_prof'] = replay_h_prof
